@@ -200,7 +200,10 @@ def main():
         hooks_commits = [l.strip() for l in open(hc) if l.strip()]
     man = {
         "version": 1,
-        "setup_cmd": "cd /verif/harness && CARGO_NET_OFFLINE=true CARGO_TARGET_DIR=/verif/target cargo build --offline --workspace --bins 2>&1 | tail -n 5",
+        # one package at a time, exactly as ./check builds them: a --workspace build would unify cargo
+        # features across the harness crates (mc-aggregator enables mithril-common's
+        # allow_skip_signer_certification for its uncertified-parties world; C07 part 1 must not see it)
+        "setup_cmd": "cd /verif/harness && for p in mc-common mc-stm mc-lottery mc-merkle mc-decode mc-chaincert mc-avk mc-dbverify mc-restore mc-proofs mc-db mc-chain mc-pool mc-signer mc-aggregator; do CARGO_NET_OFFLINE=true CARGO_TARGET_DIR=/verif/target cargo build --offline -q -p $p --bin $p 2>&1 | tail -n 3; done",
         "hooks": {
             "guard": "cargo feature `verif_hooks` of mithril-aggregator (off by default)",
             "enable": "harness crate mc-aggregator depends on mithril-aggregator with features=[\"verif_hooks\"]; nothing else enables it",
